@@ -44,6 +44,29 @@ func collectMessages(ms []genpipe.M, prefix string, out *[]string) {
 	}
 }
 
+// camel: protoc-gen-go's CamelCase of a field name (x_int32 -> XInt32)
+func camel(s string) string {
+	var out []byte
+	up := true
+	for i := 0; i < len(s); i++ {
+		c := s[i]
+		switch {
+		case c == '_':
+			up = true
+			if i+1 < len(s) && !(s[i+1] >= 'a' && s[i+1] <= 'z') {
+				out = append(out, '_')
+			}
+		case up && c >= 'a' && c <= 'z':
+			out = append(out, c-32)
+			up = false
+		default:
+			out = append(out, c)
+			up = false
+		}
+	}
+	return string(out)
+}
+
 func exportName(s string) string {
 	// protoc-gen-go camel-cases message names that start with a lower-case letter
 	if s == "" {
@@ -210,6 +233,22 @@ func (bc *builtCorpus) mainSource() string {
 			}
 			fmt.Fprintf(&b, "\t\t\t%q: {New: func() interface{} { return &%s.%s{} }, Twin: %s},\n", n, alias(g), gt, twin)
 		}
+		b.WriteString("\t\t}, Exts: []gencheck.ExtVar{\n")
+		var walk func(ms []genpipe.M, prefix string)
+		walk = func(ms []genpipe.M, prefix string) {
+			for _, m := range ms {
+				full := m.Name
+				if prefix != "" {
+					full = prefix + "." + m.Name
+				}
+				for _, x := range m.Ext {
+					fmt.Fprintf(&b, "\t\t\t{Name: %q, Num: %d, Kind: %q, Extendee: %q, Desc: %s.E_%s_%s},\n", x.Name, x.Num, x.Kind,
+						strings.TrimPrefix(x.Card, "ext:"), alias(g), exportName(goTypeName(full)), camel(x.Name))
+				}
+				walk(m.Nested, full)
+			}
+		}
+		walk(g.Schema.Messages, "")
 		b.WriteString("\t\t}},\n")
 	}
 	b.WriteString("\t})\n}\n")
